@@ -18,6 +18,8 @@ pub mod test_framework;
 pub mod tipo;
 pub mod utils;
 pub mod version;
+#[cfg(feature = "verif-hooks")]
+pub mod verif_hooks;
 
 #[derive(Debug, Default, Clone)]
 pub struct IdGenerator {
